@@ -115,6 +115,19 @@ class Ctx:
         if len(self.samples) < cap:
             self.samples.append(jsonable(obj))
 
+    def risky(self, case):
+        """synchronously record the case about to be executed (used before calls
+        that a defect could turn into an endless loop, so that the driver can
+        name the case when the watchdog fires)"""
+        fd = getattr(self, "_hbfd", None)
+        if fd is None:
+            path = getattr(self, "hb_path", None)
+            if not path:
+                return
+            fd = self._hbfd = os.open(path, os.O_WRONLY | os.O_CREAT, 0o644)
+        rec = json.dumps({"t": time.time(), "case": jsonable(case)})[:3900]
+        os.pwrite(fd, rec.encode().ljust(4000), 0)
+
     def out_of_time(self):
         return self.deadline is not None and time.time() > self.deadline
 
